@@ -7,14 +7,16 @@
 
    An observer graph node is given, exactly as the IObserver interface, by the observables
    and next objects it yields on an object x:
-       G fs notify extra children
+       G fs notify extra optional children
    observes the slots (x, f) for f in fs such that x has trait f (iter_observables), and yields
    their content as next objects (iter_objects).  A NamedTraitObserver is fs = [name]
    (optional=True: skipped on objects without the trait), a List/Dict/SetItemObserver is
    fs = [items pseudo-field], a FilteredTraitObserver (match / metadata / anytrait) is fs = the
    trait names matching the filter.  [extra] = the node contributes the trait_added extra graph
    (iter_extra_graphs of named and filtered observers): a TraitAddedObserver maintainer
-   [KAdded key g] on (x, trait_added), present whether or not x has the trait yet.
+   [KAdded key g] on (x, trait_added), present whether or not x has the trait yet.  [optional] is the
+   observer's optional flag: on an object without the trait an optional node is skipped, a non-optional
+   one makes the walk fail (C08/Model.walkable); [expected] describes the hooks of walks that do not fail.
 
    A notifier is identified by the key (handler, target) — TraitEventNotifier.equals /
    ObserverChangeNotifier.equals.  The hook state is a flat list of [(x, f, kind)]: the notifier
@@ -31,7 +33,7 @@ Import ListNotations.
 Definition oid := nat.
 Definition fname := nat.
 Definition hkey := (nat * oid)%type.          (* (handler id, target object) *)
-Inductive graph := G (fs : list fname) (notify extra : bool) (children : list graph).
+Inductive graph := G (fs : list fname) (notify extra optional : bool) (children : list graph).
 Definition heap := oid -> fname -> list oid.
 Definition traits := oid -> fname -> bool.
 Definition TA : fname := 10.                   (* the trait_added event trait *)
@@ -58,7 +60,7 @@ Definition own (k : hkey) (n : bool) (cs : list graph) (x : oid) (f : fname) : l
 (* The hooks that must be present for (key k, graph g) applied to object x. *)
 Fixpoint expected (t : traits) (h : heap) (k : hkey) (g : graph) (x : oid) {struct g} : list hook :=
   match g with
-  | G fs n e cs =>
+  | G fs n e p cs =>
       (if e then [(x, TA, KAdded k g)] else []) ++
       flat_map (fun f =>
         if t x f then
@@ -69,7 +71,7 @@ Fixpoint expected (t : traits) (h : heap) (k : hkey) (g : graph) (x : oid) {stru
 (* does the walk of g from x pass through slot (o, fo)? *)
 Fixpoint visits (t : traits) (h : heap) (g : graph) (x o : oid) (fo : fname) {struct g} : bool :=
   match g with
-  | G fs _ _ cs =>
+  | G fs _ _ _ cs =>
       existsb (fun f => t x f &&
         (slot_eqb x f o fo || existsb (fun y => existsb (fun c => visits t h c y o fo) cs) (h x f))) fs
   end.
@@ -77,7 +79,7 @@ Fixpoint visits (t : traits) (h : heap) (g : graph) (x o : oid) (fo : fname) {st
 (* the child graphs hanging below each visit of slot (o, fo) *)
 Fixpoint occ (t : traits) (h : heap) (g : graph) (x o : oid) (fo : fname) {struct g} : list graph :=
   match g with
-  | G fs _ _ cs =>
+  | G fs _ _ _ cs =>
       flat_map (fun f =>
         if t x f then
           (if slot_eqb x f o fo then cs else []) ++
@@ -89,15 +91,15 @@ Fixpoint occ (t : traits) (h : heap) (g : graph) (x o : oid) (fo : fname) {struc
    reachability semantics of an expression; what the law recomputes) *)
 Fixpoint matched (t : traits) (h : heap) (g : graph) (x o : oid) (fo : fname) {struct g} : bool :=
   match g with
-  | G fs n _ cs =>
+  | G fs n _ _ cs =>
       existsb (fun f => t x f &&
         ((n && slot_eqb x f o fo) || existsb (fun y => existsb (fun c => matched t h c y o fo) cs) (h x f))) fs
   end.
 
 Lemma graph_ind' (P : graph -> Prop) :
-  (forall fs n e cs, Forall P cs -> P (G fs n e cs)) -> forall g, P g.
+  (forall fs n e p cs, Forall P cs -> P (G fs n e p cs)) -> forall g, P g.
 Proof.
-  intros H. fix IH 1. intros [fs n e cs]. apply H.
+  intros H. fix IH 1. intros [fs n e p cs]. apply H.
   induction cs as [|c cs IHcs]; constructor; [apply IH|apply IHcs].
 Qed.
 
@@ -164,8 +166,8 @@ Lemma map_flat_map {A B C} (f : B -> C) (g : A -> list B) l :
 Proof. induction l; cbn; [reflexivity|]. rewrite map_app, IHl. reflexivity. Qed.
 
 (* ---- frame ---- *)
-Lemma visits_node_false t h fs n e cs x o fo :
-  visits t h (G fs n e cs) x o fo = false ->
+Lemma visits_node_false t h fs n e p cs x o fo :
+  visits t h (G fs n e p cs) x o fo = false ->
   forall f, In f fs -> t x f = true ->
     slot_eqb x f o fo = false /\
     forall y, In y (h x f) -> forall c, In c cs -> visits t h c y o fo = false.
@@ -179,10 +181,10 @@ Qed.
 Lemma expected_frame t h k g : forall x o fo v,
   visits t h g x o fo = false -> expected t (upd h o fo v) k g x = expected t h k g x.
 Proof.
-  induction g as [fs n e cs IH] using graph_ind'. intros x o fo v Hv.
+  induction g as [fs n e p cs IH] using graph_ind'. intros x o fo v Hv.
   rewrite Forall_forall in IH. cbn [expected]. f_equal.
   apply flat_map_ext_In. intros f Hf. destruct (t x f) eqn:Tf; [|reflexivity].
-  destruct (visits_node_false _ _ _ _ _ _ _ _ _ Hv f Hf Tf) as [Hslot Hrest]. f_equal.
+  destruct (visits_node_false _ _ _ _ _ _ _ _ _ _ Hv f Hf Tf) as [Hslot Hrest]. f_equal.
   change (upd h o fo v x f) with (if slot_eqb x f o fo then v else h x f). rewrite Hslot.
   apply flat_map_ext_In. intros y Hy. apply flat_map_ext_In. intros c Hc.
   apply IH; [exact Hc|]. apply Hrest; assumption.
@@ -191,10 +193,10 @@ Qed.
 Lemma matched_frame t h g : forall x o fo v a fa,
   visits t h g x o fo = false -> matched t (upd h o fo v) g x a fa = matched t h g x a fa.
 Proof.
-  induction g as [fs n e cs IH] using graph_ind'. intros x o fo v a fa Hv.
+  induction g as [fs n e p cs IH] using graph_ind'. intros x o fo v a fa Hv.
   rewrite Forall_forall in IH. cbn [matched].
   apply existsb_ext_In. intros f Hf. destruct (t x f) eqn:Tf; [|reflexivity]. cbn [andb].
-  destruct (visits_node_false _ _ _ _ _ _ _ _ _ Hv f Hf Tf) as [Hslot Hrest]. f_equal.
+  destruct (visits_node_false _ _ _ _ _ _ _ _ _ _ Hv f Hf Tf) as [Hslot Hrest]. f_equal.
   change (upd h o fo v x f) with (if slot_eqb x f o fo then v else h x f). rewrite Hslot.
   apply existsb_ext_In. intros y Hy. apply existsb_ext_In. intros c Hc.
   apply IH; [exact Hc|]. apply Hrest; assumption.
@@ -203,10 +205,10 @@ Qed.
 Lemma visits_frame t h g o fo v : forall x,
   visits t h g x o fo = false -> visits t (upd h o fo v) g x o fo = false.
 Proof.
-  induction g as [fs n e cs IH] using graph_ind'. intros x V. rewrite Forall_forall in IH.
-  assert (visits t (upd h o fo v) (G fs n e cs) x o fo = visits t h (G fs n e cs) x o fo) as E; [|congruence].
+  induction g as [fs n e p cs IH] using graph_ind'. intros x V. rewrite Forall_forall in IH.
+  assert (visits t (upd h o fo v) (G fs n e p cs) x o fo = visits t h (G fs n e p cs) x o fo) as E; [|congruence].
   cbn [visits]. apply existsb_ext_In. intros f Hf. destruct (t x f) eqn:Tf; [|reflexivity]. cbn [andb].
-  destruct (visits_node_false _ _ _ _ _ _ _ _ _ V f Hf Tf) as [Hslot Hrest]. f_equal.
+  destruct (visits_node_false _ _ _ _ _ _ _ _ _ _ V f Hf Tf) as [Hslot Hrest]. f_equal.
   change (upd h o fo v x f) with (if slot_eqb x f o fo then v else h x f). rewrite Hslot.
   apply existsb_ext_In. intros y Hy. apply existsb_ext_In. intros c Hc.
   rewrite (IH c Hc y (Hrest y Hy c Hc)). symmetry. apply Hrest; assumption.
@@ -214,9 +216,9 @@ Qed.
 
 Lemma occ_nil_of_not_visits t h o fo g : forall x, visits t h g x o fo = false -> occ t h g x o fo = [].
 Proof.
-  induction g as [fs n e cs IH] using graph_ind'. intros x V. rewrite Forall_forall in IH. cbn [occ].
+  induction g as [fs n e p cs IH] using graph_ind'. intros x V. rewrite Forall_forall in IH. cbn [occ].
   apply flat_map_nil_In. intros f Hf. destruct (t x f) eqn:Tf; [|reflexivity].
-  destruct (visits_node_false _ _ _ _ _ _ _ _ _ V f Hf Tf) as [Hslot Hrest]. rewrite Hslot. cbn [app].
+  destruct (visits_node_false _ _ _ _ _ _ _ _ _ _ V f Hf Tf) as [Hslot Hrest]. rewrite Hslot. cbn [app].
   apply flat_map_nil_In. intros y Hy. apply flat_map_nil_In. intros c Hc.
   apply IH; [exact Hc|]. apply Hrest; assumption.
 Qed.
@@ -227,7 +229,7 @@ Definition ranked (rank : oid -> nat) (h : heap) : Prop :=
 
 Lemma visits_rank t rank h o fo g : ranked rank h -> forall x, visits t h g x o fo = true -> rank x <= rank o.
 Proof.
-  intros R. induction g as [fs n e cs IH] using graph_ind'. intros x. cbn [visits]. rewrite Forall_forall in IH.
+  intros R. induction g as [fs n e p cs IH] using graph_ind'. intros x. cbn [visits]. rewrite Forall_forall in IH.
   intros A. apply existsb_exists in A. destruct A as [f [Hf A]]. apply andb_true_iff in A. destruct A as [_ A].
   apply orb_true_iff in A. destruct A as [A|A].
   - apply slot_eqb_true in A. destruct A as [-> _]. lia.
@@ -267,7 +269,7 @@ Section Subst.
       (expected t h' k g x ++ flat_map (fun c => sumexp t h k [c] olds) (occ t h g x o fo))
       (expected t h  k g x ++ flat_map (fun c => sumexp t h k [c] news) (occ t h g x o fo)).
   Proof.
-    induction g as [fs n e cs IH] using graph_ind'. intros x acyc.
+    induction g as [fs n e p cs IH] using graph_ind'. intros x acyc.
     unfold acyc_on in acyc. cbn [expected occ] in *. rewrite Forall_forall in IH.
     rewrite <- !app_assoc. apply Permutation_app_head.
     rewrite !interleave. apply Permutation_flat_map_In. intros f Hf.
@@ -309,14 +311,14 @@ End Subst.
 (* the graphs whose node would observe the new trait f0 of x0, one per visit of x0 *)
 Fixpoint added_occ (t : traits) (h : heap) (g : graph) (x x0 : oid) (f0 : fname) {struct g} : list graph :=
   match g with
-  | G fs _ _ cs =>
+  | G fs _ _ _ cs =>
       flat_map (fun f => if slot_eqb x f x0 f0 then [g] else []) fs ++
       flat_map (fun f =>
         if t x f then flat_map (fun y => flat_map (fun c => added_occ t h c y x0 f0) cs) (h x f) else []) fs
   end.
 
 Definition own_of (k : hkey) (x0 : oid) (f0 : fname) (g : graph) : list hook :=
-  match g with G _ n _ cs => own k n cs x0 f0 end.
+  match g with G _ n _ _ cs => own k n cs x0 f0 end.
 
 Section AddTrait.
   Variables (t : traits) (h : heap) (k : hkey) (x0 : oid) (f0 : fname).
@@ -328,7 +330,7 @@ Section AddTrait.
     Permutation (expected t' h k g x)
                 (expected t h k g x ++ flat_map (own_of k x0 f0) (added_occ t h g x x0 f0)).
   Proof.
-    induction g as [fs n e cs IH] using graph_ind'. intros x. rewrite Forall_forall in IH.
+    induction g as [fs n e p cs IH] using graph_ind'. intros x. rewrite Forall_forall in IH.
     cbn [expected added_occ]. rewrite <- app_assoc. apply Permutation_app_head.
     rewrite flat_map_app, !ffm. rewrite !flat_map_plus.
     apply Permutation_flat_map_In. intros f Hf.
@@ -397,9 +399,9 @@ Qed.
 Lemma maint_on_expected t h k o fo g : forall x,
   Permutation (maint_on (expected t h k g x) o fo) (map (pair k) (occ t h g x o fo)).
 Proof.
-  induction g as [fs n e cs IH] using graph_ind'. intros x. rewrite Forall_forall in IH.
+  induction g as [fs n e p cs IH] using graph_ind'. intros x. rewrite Forall_forall in IH.
   cbn [expected occ]. rewrite maint_on_app.
-  assert (maint_on (if e then [(x, TA, KAdded k (G fs n e cs))] else []) o fo = []) as A.
+  assert (maint_on (if e then [(x, TA, KAdded k (G fs n e p cs))] else []) o fo = []) as A.
   { destruct e; cbn; [|reflexivity]. destruct (slot_eqb x TA o fo); reflexivity. }
   rewrite A. cbn [app]. unfold maint_on at 1. rewrite ffm, map_flat_map.
   apply Permutation_flat_map_In. intros f Hf. destruct (t x f); [|reflexivity].
@@ -412,9 +414,9 @@ Qed.
 Lemma users_on_expected t h k o fo g : forall x,
   (exists u, In u (users_on (expected t h k g x) o fo)) <-> matched t h g x o fo = true.
 Proof.
-  induction g as [fs n e cs IH] using graph_ind'. intros x. rewrite Forall_forall in IH.
+  induction g as [fs n e p cs IH] using graph_ind'. intros x. rewrite Forall_forall in IH.
   cbn [expected matched]. rewrite users_on_app.
-  assert (users_on (if e then [(x, TA, KAdded k (G fs n e cs))] else []) o fo = []) as A.
+  assert (users_on (if e then [(x, TA, KAdded k (G fs n e p cs))] else []) o fo = []) as A.
   { destruct e; cbn; [|reflexivity]. destruct (slot_eqb x TA o fo); reflexivity. }
   rewrite A. cbn [app]. unfold users_on at 1. split.
   - intros [u Hu]. apply in_flat_map in Hu. destruct Hu as [hk [Hhk Hu]].
@@ -445,7 +447,7 @@ Qed.
 
 Lemma expected_user_key t h k g : forall x z fz k', In (z, fz, KUser k') (expected t h k g x) -> k' = k.
 Proof.
-  induction g as [fs n e cs IH] using graph_ind'. intros x z fz k' I. rewrite Forall_forall in IH.
+  induction g as [fs n e p cs IH] using graph_ind'. intros x z fz k' I. rewrite Forall_forall in IH.
   cbn [expected] in I. apply in_app_or in I. destruct I as [I|I].
   - destruct e; [|destruct I]. destruct I as [E|[]]. discriminate.
   - apply in_flat_map in I. destruct I as [f [Hf I]]. destruct (t x f); [|destruct I].
@@ -567,15 +569,15 @@ End Step.
    named observer's notifier and maintainers (_trait_added_observer.py observer_change_handler) *)
 Definition own_for (k : hkey) (x0 : oid) (f0 : fname) (g : graph) : list hook :=
   match g with
-  | G fs n _ cs => flat_map (fun f => if Nat.eqb f f0 then own k n cs x0 f0 else []) fs
+  | G fs n _ _ cs => flat_map (fun f => if Nat.eqb f f0 then own k n cs x0 f0 else []) fs
   end.
 (* every node that names the dynamic trait f0 carries the trait_added extra graph *)
 Fixpoint wf_dyn (f0 : fname) (g : graph) {struct g} : bool :=
   match g with
-  | G fs _ e cs => (e || negb (existsb (Nat.eqb f0) fs)) && forallb (wf_dyn f0) cs
+  | G fs _ e _ cs => (e || negb (existsb (Nat.eqb f0) fs)) && forallb (wf_dyn f0) cs
   end.
 
-Lemma own_for_nil k x0 f0 fs n e cs : existsb (Nat.eqb f0) fs = false -> own_for k x0 f0 (G fs n e cs) = [].
+Lemma own_for_nil k x0 f0 fs n e p cs : existsb (Nat.eqb f0) fs = false -> own_for k x0 f0 (G fs n e p cs) = [].
 Proof.
   intros E. cbn [own_for]. apply flat_map_nil_In. intros f Hf.
   destruct (Nat.eqb f f0) eqn:Q; [|reflexivity]. apply Nat.eqb_eq in Q. subst f.
@@ -586,20 +588,20 @@ Lemma added_bridge t h k x0 f0 g : forall x, wf_dyn f0 g = true ->
   Permutation (flat_map (own_of k x0 f0) (added_occ t h g x x0 f0))
               (flat_map (fun kg => own_for (fst kg) x0 f0 (snd kg)) (added_on (expected t h k g x) x0)).
 Proof.
-  induction g as [fs n e cs IH] using graph_ind'. intros x W. rewrite Forall_forall in IH.
+  induction g as [fs n e p cs IH] using graph_ind'. intros x W. rewrite Forall_forall in IH.
   cbn [wf_dyn] in W. apply andb_true_iff in W. destruct W as [W1 W2]. rewrite forallb_forall in W2.
   cbn [expected added_occ]. rewrite added_on_app, !flat_map_app. apply Permutation_app.
   - (* this node *)
     rewrite ffm.
-    assert (flat_map (fun f => flat_map (own_of k x0 f0) (if slot_eqb x f x0 f0 then [G fs n e cs] else [])) fs
-            = if Nat.eqb x x0 then own_for k x0 f0 (G fs n e cs) else []) as L.
+    assert (flat_map (fun f => flat_map (own_of k x0 f0) (if slot_eqb x f x0 f0 then [G fs n e p cs] else [])) fs
+            = if Nat.eqb x x0 then own_for k x0 f0 (G fs n e p cs) else []) as L.
     { unfold slot_eqb. destruct (Nat.eqb x x0); cbn [andb own_for].
       - apply flat_map_ext_In. intros f _. destruct (Nat.eqb f f0); cbn; rewrite ?app_nil_r; reflexivity.
       - apply flat_map_nil_In. reflexivity. }
     rewrite L. clear L.
     destruct e; cbn [orb] in W1.
     + cbn. unfold slot_eqb. rewrite Nat.eqb_refl, andb_true_r. destruct (Nat.eqb x x0); cbn; rewrite ?app_nil_r; reflexivity.
-    + apply negb_true_iff in W1. rewrite (own_for_nil k x0 f0 fs n false cs W1). cbn. destruct (Nat.eqb x x0); reflexivity.
+    + apply negb_true_iff in W1. rewrite (own_for_nil k x0 f0 fs n false p cs W1). cbn. destruct (Nat.eqb x x0); reflexivity.
   - (* below *)
     rewrite ffm. rewrite added_on_flat_map, ffm.
     apply Permutation_flat_map_In. intros f Hf. destruct (t x f); [|reflexivity].
@@ -641,8 +643,8 @@ Qed.
 
 Fixpoint graph_eqb (g1 g2 : graph) {struct g1} : bool :=
   match g1, g2 with
-  | G f1 n1 e1 cs1, G f2 n2 e2 cs2 =>
-      list_nat_eqb f1 f2 && Bool.eqb n1 n2 && Bool.eqb e1 e2 &&
+  | G f1 n1 e1 p1 cs1, G f2 n2 e2 p2 cs2 =>
+      list_nat_eqb f1 f2 && Bool.eqb n1 n2 && Bool.eqb e1 e2 && Bool.eqb p1 p2 &&
       (fix go (l1 l2 : list graph) : bool :=
          match l1, l2 with
          | [], [] => true
@@ -653,7 +655,7 @@ Fixpoint graph_eqb (g1 g2 : graph) {struct g1} : bool :=
 
 Lemma graph_eqb_spec g1 : forall g2, graph_eqb g1 g2 = true <-> g1 = g2.
 Proof.
-  induction g1 as [f1 n1 e1 cs1 IH] using graph_ind'. intros [f2 n2 e2 cs2]. cbn [graph_eqb].
+  induction g1 as [f1 n1 e1 p1 cs1 IH] using graph_ind'. intros [f2 n2 e2 p2 cs2]. cbn [graph_eqb].
   rewrite !andb_true_iff, list_nat_eqb_spec, !eqb_true_iff.
   assert ((fix go (l1 l2 : list graph) : bool :=
              match l1, l2 with
@@ -665,7 +667,7 @@ Proof.
     - split; reflexivity.
     - inversion IH as [|? ? Ha Hcs]; subst. rewrite andb_true_iff, (Ha b), (IHcs Hcs cs2).
       split; [intros [-> ->]; reflexivity|intros [= -> ->]; split; reflexivity]. }
-  rewrite L. split; [intros [[[-> ->] ->] ->]; reflexivity|intros [= -> -> -> ->]; repeat split].
+  rewrite L. split; [intros [[[[-> ->] ->] ->] ->]; reflexivity|intros [= -> -> -> -> ->]; repeat split].
 Qed.
 
 Definition hkey_eqb (a b : hkey) : bool := Nat.eqb (fst a) (fst b) && Nat.eqb (snd a) (snd b).
